@@ -548,6 +548,28 @@ func checkC10(c *Ctx) {
 					}
 				}
 			}
+			if round == 1 && strings.HasPrefix(impl, "ok") && out.IsValid() {
+				// oracle: a result belongs to its caller.  A LATER ReverseTranslate on the same Transformer (what a
+				// watching source behind a wrapper does on every update) must leave the earlier result as it was.
+				val2 := reflect.New(TT).Elem()
+				for k := 0; k < val2.NumField(); k++ {
+					if val2.Field(k).CanSet() && !(val2.Field(k).Kind() == reflect.Ptr && val2.Field(k).Type().Elem().Kind() == reflect.String) && r.Chance(70) {
+						fillValue(r, val2.Field(k), nil)
+					}
+				}
+				var rerr2 error
+				pn2 := catch(func() { _, rerr2 = tf.ReverseTranslate(val2) })
+				_ = rerr2
+				if pn2 == "" {
+					p := []string{}
+					for k := 0; k < out.NumField(); k++ {
+						p = append(p, tfValC10(out.Field(k)))
+					}
+					if again := "ok " + strings.Join(p, " "); again != impl {
+						res.Add(Finding{Kind: "violation", What: "the result of a ReverseTranslate call changed when the same Transformer reverse-translated another value", Case: cs2, Expected: impl, Observed: again})
+					}
+				}
+			}
 			nested := strings.Count(fields, "{") > 1
 			res.Case(req, len(chain) >= 2 && nested && nfilled > 0, cs2)
 		}
